@@ -202,3 +202,33 @@ theorem C02_kube_delta (E : Env) (path : Str) (k : Str) (hk : k ∈ kubeKeysRead
   · rw [← e2]; exact fromKube_segs E path u' svc' hc'
 
 end Cv
+
+namespace Cv
+open MM
+
+/-! ### .volume -/
+def volumeKeysRead : List Str :=
+  Gen.tbl_get_base_podman_command_inline_lookup_and_add_all_strings.map Prod.fst ++ [s "GlobalArgs"] ++ volOptKeys
+    ++ [s "Label", s "PodmanArgs", s "VolumeName"]
+
+theorem volumeSegs_reads (E : Env) (path : Str) : (volumeSegs E path).flatMap (·.reads) = volumeKeysRead := by
+  unfold volumeSegs volumeKeysRead
+  simp only [List.flatMap_append, reads_rows (segAll (s "Volume")) (fun _ => rfl)]
+  simp [segConst, segArgs, segKeyVal, segMulti, segVolOpts]
+
+theorem volumeKeys_nodup : volumeKeysRead.Nodup := by decide
+theorem volumeKeys_documented : ∀ k ∈ volumeKeysRead, k ∈ Gen.SUPPORTED_VOLUME_KEYS := by decide
+theorem volumeKeys_complete : ∀ k ∈ Gen.SUPPORTED_VOLUME_KEYS, k ∈ volumeKeysRead ∨ k = s "ServiceName" := by decide
+
+theorem C02_volume_delta (E : Env) (path : Str) (k : Str) (hk : k ∈ volumeKeysRead) (u u' svc svc' : SUnit) (n n' : Str)
+    (h : AgreeExcept (s "Volume") k u u')
+    (hc : fromVolume E path u = .ok (svc, n)) (hc' : fromVolume E path u' = .ok (svc', n')) :
+    ∃ A g B, volumeSegs E path = A ++ g :: B ∧ k ∈ g.reads ∧
+      HasExec svc "ExecStart" (cmdOf A u ++ g.emit u ++ cmdOf B u) ∧ HasExec svc' "ExecStart" (cmdOf A u ++ g.emit u' ++ cmdOf B u) := by
+  obtain ⟨A, g, B, hs, hkg, e1, e2⟩ := delta_of_segs (s "Volume") (volumeSegs E path) (volumeSegs_local E path)
+    (by rw [volumeSegs_reads]; exact volumeKeys_nodup) k (by rw [volumeSegs_reads]; exact hk) u u' h
+  refine ⟨A, g, B, hs, hkg, ?_, ?_⟩
+  · rw [← e1]; exact fromVolume_segs E path u svc n hc
+  · rw [← e2]; exact fromVolume_segs E path u' svc' n' hc'
+
+end Cv
